@@ -265,6 +265,9 @@ func (s *xsim) tx(name string) (*pb.Transaction, error) {
 	if c.Bad == "dupfar" && len(tx.TxInputs) > 1 { // the first input once more after the others
 		tx.TxInputs = append(tx.TxInputs, proto.Clone(tx.TxInputs[0]).(*protos.TxInput))
 	}
+	if c.Bad == "mbsum" { // an annotation anybody can attach: it must not switch any check off
+		tx.ModifyBlock = &pb.ModifyBlock{}
+	}
 	if c.Bad == "coinbase" { // submitted on its own it claims to be a coinbase
 		tx.Coinbase = true
 	}
